@@ -139,11 +139,20 @@ func ofbaseDec(sc J, obs J) {
 
 func ofbaseHdr(sc J, obs J) {
 	n, pre := toInt(sc["n"]), toInt(sc["pre"])
-	msg := make([]byte, n)
-	for i := range msg {
-		msg[i] = byte((i + 1) % 256)
+	via, _ := sc["via"].(string)
+	backing := make([]byte, n+16)
+	for i := range backing {
+		backing[i] = byte((i + 1) % 256)
 	}
-	d := ofbase.NewDecoder(msg)
+	var d *ofbase.Decoder
+	switch via {
+	case "prefix": // the input is a prefix of a longer array: bytes beyond it exist in memory but are not part of it
+		d = ofbase.NewDecoder(backing[:n])
+	case "slice": // the input is a window of an enclosing message
+		d = ofbase.NewDecoder(backing).SliceDecoder(n, 0)
+	default:
+		d = ofbase.NewDecoder(append([]byte(nil), backing[:n]...)[:n:n])
+	}
 	d.Skip(pre)
 	var h ofbase.Header
 	err := h.Decode(d)
